@@ -374,7 +374,7 @@ def _clobbers_param(prog, t, k, depth=0):
 
 
 def r_keep(prog, R):
-    r = R.rule("R-C15-KEEP", "a malformed directive cannot discard configuration accumulated from earlier lines: the old value is released only once its replacement has parsed", floor=4,
+    r = R.rule("R-C15-KEEP", "a malformed or empty directive cannot discard configuration accumulated from earlier lines: the old value is released only once its replacement has parsed to something", floor=6,
                analysis="replace-after-parse (must-order) + callee clobber summaries")
     n = 0
     for f in sorted(prog.funcs.values(), key=lambda x: x.key):
@@ -435,6 +435,38 @@ def r_keep(prog, R):
                 r.ok(key, f.loc(el))
             else:
                 r.viol(key, f.name, f.loc(el), "%s releases the accumulated %s before its replacement exists: %s, so a malformed directive discards what earlier lines configured" % (f.name, fld, why))
+    # (3) a line that names nothing replaces nothing: where a list field and its count are replaced together, the store is reached only with
+    #     a non-zero count (a value made of separators only parses successfully to zero elements)
+    COUNTS = {"sortlist": "nsortlist", "domains": "ndomains"}
+    for f in sorted(prog.funcs.values(), key=lambda x: x.key):
+        if f.file not in ("src/lib/ares_sysconfig_files.c",):
+            continue
+        mf = None
+        for b, i, el in f.elements():
+            if el["k"] != "asg" or el["e"]["op"] != "=":
+                continue
+            l = strip(el["e"]["l"])
+            if l is None or l.get("k") != "mem" or l.get("rec") != "ares_sysconfig_t" or l["f"] not in COUNTS.values():
+                continue
+            rr = strip(el["e"].get("r"))
+            if not is_var(rr):
+                continue
+            if root_var(l) is None or root_var(l).get("vk") != "param":
+                continue
+            n += 1
+            cv = rr["n"]
+            key = "fn=%s %s replaced only by a non-empty list" % (f.name, render(l))
+            if mf is None:
+                mf = MustFacts(f, track_calls=False)
+            nz = False
+            for c3, p3 in mf.cond_facts_at(b, i):
+                op, l3, r3 = norm_cmp(c3, p3)
+                if is_var(strip(l3), cv) and ((op in ("!=", ">") and r3 is not None and const_val(r3) == 0) or op == "truth" or (op == ">=" and r3 is not None and (const_val(r3) or 0) >= 1)):
+                    nz = True
+            if nz:
+                r.ok(key, f.loc(el))
+            else:
+                r.viol(key, f.name, f.loc(el), "%s is replaced by a freshly parsed list without knowing that '%s' is non-zero: a line whose value consists of separators only (e.g. 'sortlist ;') parses successfully to nothing and erases what an earlier line configured" % (render(l), cv))
     r.info["sites"] = n
 
 
